@@ -259,6 +259,10 @@ def execute(case, ctx, cls=None, extra_kwargs=None, after_create=None):
         inject.arm(name + '.front', front['mode'], front.get('n', -1))
     if mode in ('terminate', 'kill', 'census', 'pause'):
         inject.arm(name, mode, inj.get('n', -1), inj.get('sig', 'SIGKILL'), inj.get('granularity', 'line'))
+    ctrl = case.get('ctrl')
+    if ctrl:
+        # the child-side control thread of a process worker is held at its n-th line for ctrl['hold'] seconds (it receives the terminate request)
+        inject.arm(name + '.ctrl', ctrl['mode'], ctrl.get('n', -1))
     w = None
     pipe = None
     early = None
@@ -335,6 +339,14 @@ def execute(case, ctx, cls=None, extra_kwargs=None, after_create=None):
                 time.sleep(0.02)
             elif case.get('settle'):
                 time.sleep(case['settle'])
+            if ctrl and ctrl['mode'] == 'pause':
+                def _release_ctrl():
+                    r_ = inject.wait_reached(name + '.ctrl', 4.0)
+                    obs['ctrl_reached'] = r_
+                    if r_:
+                        time.sleep(ctrl.get('hold', 0.4))
+                    inject.release(name + '.ctrl')
+                threading.Thread(target=_release_ctrl, daemon=True).start()
             t0 = time.monotonic()
             try:
                 obs['term_ret'] = bounded(w.terminate, GUARD, **tkw)
@@ -535,6 +547,10 @@ def execute(case, ctx, cls=None, extra_kwargs=None, after_create=None):
         if front:
             obs['front_trace'] = inject.trace(name + '.front')
             inject.cleanup(name + '.front')
+        if ctrl:
+            inject.release(name + '.ctrl')
+            obs['ctrl_trace'] = inject.trace(name + '.ctrl')
+            inject.cleanup(name + '.ctrl')
         try:
             os.unlink(marker)
         except OSError:
